@@ -557,7 +557,7 @@ fn format_do_block_multiline(
 
     let mut result = "do {".to_string();
 
-    for stmt in statements {
+    for (idx, stmt) in statements.iter().enumerate() {
         // Leading comments
         for comment in &stmt.leading {
             result.push('\n');
@@ -567,7 +567,10 @@ fn format_do_block_multiline(
         // Expression
         result.push('\n');
         result.push_str(&indent_str);
-        result.push_str(&format_expr_impl(&stmt.node, max_cols, inner_indent));
+        result.push_str(&protect_leading_minus(
+            format_expr_impl(&stmt.node, max_cols, inner_indent),
+            idx == 0,
+        ));
         // Trailing comment
         if let Some(trailing) = &stmt.trailing {
             result.push_str("  ");
@@ -636,6 +639,18 @@ fn binary_op_str(op: &BinaryOp) -> &'static str {
 /// Generate indentation string
 fn make_indent(indent: usize) -> String {
     " ".repeat(indent)
+}
+
+/// Statements are separated by line breaks, but an expression continues on the next line when
+/// that line starts with a binary operator. A statement whose text starts with `-` (a negation)
+/// would therefore be read as a subtraction from the statement before it; unless it is the
+/// first statement it is kept in parentheses.
+pub fn protect_leading_minus(formatted: String, is_first: bool) -> String {
+    if !is_first && formatted.starts_with('-') {
+        format!("({})", formatted)
+    } else {
+        formatted
+    }
 }
 
 /// Join formatted statements with appropriate spacing based on their original positions
